@@ -27,6 +27,8 @@ ASSUMPTIONS = [
     "a subscriber that joins/leaves in the iteration between the issue of a report and its delivery may or may not see it",
     "frames are decoded with the device type of an immediately preceding ENABLE DEVICE TYPE only; a standard opcode under a foreign device type decodes to the generic unknown command (library convention, see C01)",
 ]
+SANITY = ["tridonic_reports", "tridonic_gaps", "tridonic_subscriber_deliveries", "tridonic_failed_config_reports",
+          "luba_reports", "sci_reports", "luba_extra_subscriber_reports", "sci_extra_subscriber_reports"]
 BOUNDS = {"quick": "Tridonic: histories len<=2 at d<=2, len 3 at d<=1; serial: histories len<=3 (single schedule + chunk placement d<=1); subscribers <=2",
           "thorough": "Tridonic: len<=3 at d<=2, len 4 at d<=1; serial len<=4; subscribers <=3"}
 
@@ -260,6 +262,10 @@ def trid_items_from_trace(w):
 def judge_trid(res, cfg, w, obs):
     case = dict(cfg, t="tridonic")
     got = norm([lib_report(c, r, e) for k, c, r, e in w.traffic if k == 0])
+    observe(res, "tridonic_reports", len(got))
+    observe(res, "tridonic_gaps", sum(1 for x in w.effective if x[0] == "GAP"))
+    observe(res, "tridonic_subscriber_deliveries", sum(len(v) for v in w.sublog.values()))
+    observe(res, "tridonic_failed_config_reports", sum(1 for x in got if x[2]))
     maptype = 3 if cfg.get("with_map") else "nomap"
     poss, _ = ref_buswatch(w.effective, maptype)
     poss = [norm(p) for p in poss]
@@ -481,6 +487,8 @@ def judge_serial(res, cfg, w, obs):
     exp_all = norm(exp_all[0])
     # index of the forward frames among the delivered items
     fpos = [i for i, it in enumerate(fitems) if it[0] == "F"]
+    observe(res, f"{drv}_reports", sum(len(v) for v in w.qlogs.values()))
+    observe(res, f"{drv}_extra_subscriber_reports", sum(len(v) for k2, v in w.qlogs.items() if k2 != 0))
     for k, log in w.qlogs.items():
         lo, hi = w.qwin[k][0], (w.qwin[k][1] if w.qwin[k][1] is not None else w.delivered)
         exp = [exp_all[j] for j, i in enumerate(fpos) if lo <= i < hi]
